@@ -362,7 +362,7 @@ class Gen:
     def build(s):
         rng = s.rng
         mix = {'C01': [s.shape_sleeper_and_yielder, s.shape_self_run_then_exit, s.shape_mixed_pass, s.shape_kill_sleepers] * 2 + [s.shape_wrap_seam, s.shape_wake, s.shape_atomic_overflow],
-               'C02': [s.shape_wrap_seam] * 5 + [s.shape_kill_sleepers, s.shape_kill_sleepers, s.shape_sleeper_and_yielder, s.shape_mixed_pass],
+               'C02': [s.shape_wrap_seam] * 5 + [s.shape_kill_sleepers, s.shape_kill_sleepers, s.shape_sleeper_and_yielder, s.shape_mixed_pass, s.shape_atomic_overflow],
                'C03': [s.shape_wake] * 5 + [s.shape_mixed_pass, s.shape_sleeper_and_yielder, s.shape_wrap_seam, s.shape_kill_sleepers, s.shape_atomic_overflow]}[s.flavor]
         if rng.chance(3, 4):
             for _ in range(rng.range(0, 6)):
